@@ -5,6 +5,7 @@
 //! flushed, so that a supervising process can attribute a hang or an abort to a case.
 
 mod bits;
+mod conc;
 mod expr;
 mod ops;
 mod qasm;
@@ -38,6 +39,7 @@ fn main() {
             "ops" => ops::run(&toks),
             "bits" => bits::run(&toks),
             "reg" => reg::run(&toks),
+            "conc" => conc::run(&toks),
             "qasm" => qasm::run(&toks),
             "sampler" => sampler::run(&toks),
             other => format!("ERR unknown-engine {}", other),
